@@ -88,6 +88,7 @@ type PathResult struct {
 	Msg        string
 	AssertID   string
 	Known      string // known-finding class active on this path ("" if none)
+	EngineOnly string
 	Trace      string
 	Nondets    []NondetVal
 	Reached    []string
@@ -114,6 +115,7 @@ type Exec struct {
 	nondets    []nondetRec
 	reached    []string
 	known      string
+	engineOnly string
 	asserts    int
 	symAsserts int
 
